@@ -31,14 +31,14 @@ FACTORS = [  # first value = default (what shrinking moves towards)
     ("nl_sampling", [False, True]),
     ("transitions", [False, True]),
     ("inspect_callback", ["none", "1arg", "2arg"]),
-    ("terminate_callback", ["none", "at0", "at1"]),
+    ("terminate_callback", ["none", "at0", "at1", "at2"]),
     ("fresh_stochasticity", ["true", "callable"]),
     ("dry_run", [False, True]),
     ("return_final_position", [False, True]),
     ("resume", [False, True]),
     ("initial_position", [False, True]),
     ("export_operator_outputs", [False, True]),
-    ("total_iterations", [2, 3]),
+    ("total_iterations", [2, 3, 4]),
 ]
 DEFAULT = {k: v[0] for k, v in FACTORS}
 ENV_EVENTS = ["keep", "rmdirs", "push_sseq"]
@@ -193,7 +193,7 @@ def invoke(env, cfg):
             return i >= at
         kw["terminate_callback"] = term
     if cfg["fresh_stochasticity"] == "callable":
-        kw["fresh_stochasticity"] = lambda i: i != 1
+        kw["fresh_stochasticity"] = lambda i: i == 0
     if cfg["initial_position"]:
         with R.Context(123):
             ip = ift.from_random(lh.domain) * 0.2
@@ -389,6 +389,12 @@ def run_history(hist, stats=None):
     state = {}
     try:
         for pos, step in enumerate(hist):
+            if "split_at" in step:
+                run_split(step["cfg"], step["split_at"], stats)
+                reset_process_globals()
+                state["pushed"] = False          # the reset dropped an extra stack entry, if there was one
+                env.dirinfo.clear()
+                continue
             cfg = fixup(dict(DEFAULT, **step["cfg"]))
             ev = step.get("env", "keep")
             if cfg["resume"] and ev == "push_sseq":
@@ -428,6 +434,48 @@ def run_history(hist, stats=None):
         reset_process_globals()
 
 
+def final_digest(cfg, obs):
+    res = obs["result"]
+    sl = res[0] if cfg["return_final_position"] else res
+    parts = [core.canon(s) for s in sl.iterator()]
+    if cfg["return_final_position"]:
+        parts.append(core.canon(res[1]))
+    return core.digest(parts)
+
+
+def run_split(cfg, k, stats=None):
+    """Metamorphic oracle for the documented `resume` option: a run that is
+    stopped by terminate_callback after iteration k and continued with
+    resume=True must end with the same samples as the uninterrupted run with
+    the same options ("returns results consistent with the chosen options")."""
+    cfg = fixup(dict(DEFAULT, **cfg))
+    cfg.update(odir="A", dry_run=False, terminate_callback="none", resume=False)
+    T = cfg["total_iterations"]
+    k = k % (T - 1)
+    env = Env()
+    try:
+        reset_process_globals()
+        o_u = invoke(env, dict(cfg, odir="B"))
+        check(env, dict(cfg, odir="B"), o_u, 0)
+        reset_process_globals()
+        c1 = dict(cfg, terminate_callback=f"at{k}")
+        o1 = invoke(env, c1)
+        check(env, c1, o1, 0)
+        c2 = dict(cfg, resume=True)
+        o2 = invoke(env, c2)
+        check(env, c2, o2, 1)
+        if stats is not None:
+            stats["invocations"] = stats.get("invocations", 0) + 3
+            stats["split_resume_comparisons"] = stats.get("split_resume_comparisons", 0) + 1
+        if final_digest(cfg, o_u) != final_digest(cfg, o2):
+            raise Violation({"oracle": "stopped-and-resumed-run-differs-from-uninterrupted",
+                             "fresh_stochasticity": cfg["fresh_stochasticity"]},
+                            f"terminate after iteration {k}, then resume=True; total_iterations={T}")
+    finally:
+        env.close()
+        reset_process_globals()
+
+
 # --------------------------------------------------------------------------
 def minimise_cfg(hist, sig):
     """Reset factors to their defaults one at a time while the same signature recurs."""
@@ -449,7 +497,7 @@ def minimise_cfg(hist, sig):
         else:
             i += 1
     for s in cur:
-        if s.get("env", "keep") != "keep":
+        if "split_at" not in s and s.get("env", "keep") != "keep":
             old = s["env"]
             s["env"] = "keep"
             if not fails(cur):
@@ -489,7 +537,10 @@ def strategies():
     cfg = cfg.map(lambda c: dict(c, plot_energy_history=c["plot_energy_history"] and c["total_iterations"] == 2 and c["odir"] == "B",
                                  plot_minisanity_history=c["plot_minisanity_history"] and c["total_iterations"] == 2 and c["odir"] == "B"))
     step = st.fixed_dictionaries({"cfg": cfg, "env": st.sampled_from(ENV_EVENTS)})
-    return st.lists(step, min_size=1, max_size=4)
+    nopl = cfg.map(lambda c: dict(c, plot_energy_history=False, plot_minisanity_history=False,
+                                  export_operator_outputs=False, total_iterations=max(3, c["total_iterations"])))
+    split = st.fixed_dictionaries({"cfg": nopl, "split_at": st.integers(0, 2)})
+    return st.lists(st.one_of(step, step, step, split), min_size=1, max_size=4)
 
 
 def hunt(job):
@@ -499,7 +550,8 @@ def hunt(job):
 
     def body(hist):
         state["runs"] += 1
-        hist = [{"cfg": {k: v for k, v in fixup(s["cfg"]).items() if v != DEFAULT[k]}, "env": s["env"]} for s in hist]
+        hist = [dict({"cfg": {k: v for k, v in fixup(s["cfg"]).items() if v != DEFAULT[k]}},
+                     **({"split_at": s["split_at"]} if "split_at" in s else {"env": s["env"]})) for s in hist]
         state["shapes"].add(core.digest(json.dumps(hist, sort_keys=True)))
         if state["sample"] is None and len(hist) >= 2:
             state["sample"] = hist
@@ -514,7 +566,7 @@ def hunt(job):
             raise
     test = seed(job["hseed"])(settings(max_examples=job["examples"], database=None, deadline=None,
                                        report_multiple_bugs=False, suppress_health_check=list(HealthCheck),
-                                       verbosity=Verbosity.quiet, phases=[Phase.generate, Phase.shrink])(
+                                       verbosity=Verbosity.quiet, phases=[Phase.generate])(
         given(strategies())(body)))
     try:
         test()
